@@ -265,6 +265,12 @@ class StaticDriver(HttpDriver):
                 'seg_pos': [s.pos for s in sf.segments], 'seg_end': [s.pos + s.size for s in sf.segments],
                 'init_end': sf.init_end, 'flen': len(sf.data),
                 'init_start': next((pos for typ, pos, size in sf.layout if typ == 'ftyp'), 0)}
+        # bytes between consecutive ranges (none when the ranges tile the file): which whole top-level boxes lie there?
+        rs = [line['init_range']] + line['media_ranges']
+        gaps = [(rs[i][1] + 1, rs[i + 1][0]) for i in range(len(rs) - 1) if rs[i][1] + 1 < rs[i + 1][0]]
+        line['gap_kinds'] = [typ for typ, pos, size in sf.layout if any(ga <= pos and pos + size <= gb for ga, gb in gaps)]
+        line['gap_bytes'] = sum(gb - ga for ga, gb in gaps)
+        line['gap_box_bytes'] = sum(size for typ, pos, size in sf.layout if any(ga <= pos and pos + size <= gb for ga, gb in gaps))
         fetched = []
         for a, b in [line['init_range']] + line['media_ranges']:
             rr = self.get(rep['base'], headers={'Range': f'bytes={a}-{b}'})
